@@ -40,7 +40,7 @@ BFilter ==
                    (IF last'.call = "NewYuv" THEN last'.args.cfg ELSE last'.args).ssx,
                    (IF last'.call = "NewYuv" THEN last'.args.cfg ELSE last'.args).ssy))
   \* two accessor calls in a row add nothing
-  /\ ~(last.call \in {"MutatePayload", "Clone"} /\ last'.call \in {"MutatePayload", "Clone"})
+  /\ ~(last.call \in {"MutatePayload", "Clone", "Rebuild"} /\ last'.call \in {"MutatePayload", "Clone", "Rebuild"})
 
 Resolved(call, a, w, h) ==
   IF call \in {"RgbToYuv", "LinToYuv", "XybToYuv"} THEN ResolveYuv(a, w, h)
